@@ -6,6 +6,7 @@ package topologyaware
 // only in `-tags verif -overlay` builds.
 
 import (
+	libmem "github.com/containers/nri-plugins/pkg/resmgr/lib/memory"
 	"fmt"
 	"sort"
 	"strconv"
@@ -72,7 +73,28 @@ func VerifSnapshot(b policyapi.Backend) []string {
 			verifSet(g.ExclusiveCPUs()), verifSet(g.IsolatedCPUs()), g.CPUPortion(), g.SharedPortion(), g.ReservedPortion(),
 			az, uint64(g.GetMemoryZone())))
 	}
-	// memory allocator: free memory of every pool's zone and of the whole machine
+	// memory allocator: free memory of every zone that has an allocation assigned to it
+	out = append(out, verifZones(p.memAllocator))
 	out = append(out, fmt.Sprintf("PM nodesWithMem=%d", uint64(p.memAllocator.Masks().NodesWithMem())))
 	return out
+}
+
+// verifZones renders "PZ <zone mask>:<free bytes>,..." for the distinct assigned zones (ZoneFree counts the
+// allocations confined to the zone against its capacity)
+func verifZones(a *libmem.Allocator) string {
+	seen := map[libmem.NodeMask]bool{}
+	zs := []string{}
+	a.ForeachRequest(nil, func(r *libmem.Request) bool {
+		z := r.Zone()
+		if !seen[z] {
+			seen[z] = true
+			zs = append(zs, fmt.Sprintf("%d:%d", uint64(z), a.ZoneFree(z)))
+		}
+		return true
+	})
+	sort.Strings(zs)
+	if len(zs) == 0 {
+		return "PZ -"
+	}
+	return "PZ " + strings.Join(zs, ",")
 }
